@@ -6,7 +6,7 @@ dis.Bytecode).  Contract per injected run: contexts_active_in_frame returns (nev
 InspectionWarning and the result contains every truly active manager, in order, with the right obj and is_async, and at most the
 manager being entered / exited besides.  Contract for the NEXT, fault-free inspection of the same frame and of a fresh frame of
 the same function: exactly the active managers, no warning - a failed analysis leaves nothing behind."""
-import sys, os, io, warnings, contextlib, itertools, dis
+import sys, os, io, gc, warnings, contextlib, itertools, dis
 sys.path.insert(0, os.path.dirname(__file__))
 from _leg import Leg, THOROUGH
 import stackscope
@@ -162,6 +162,34 @@ for pname, (kind, src) in SRC.items():
                         break
                 for o in (obj, obj2):
                     o.close()
+                if fired and exc is None:
+                    # reference counts (C06): once the result of a FAILED analysis is dropped, nothing of the target may stay referenced -
+                    # without waiting for a cyclic collection (a handler that keeps the caught exception alive makes a cycle through
+                    # its own traceback, which pins the inspected frame and everything on its value stack)
+                    CASE[0] += 1
+                    ns3 = {}
+                    exec(compile("\n" * CASE[0] + src, f"<c20f:{pname}>", "exec"), ns3)
+                    A3 = []
+                    obj3 = ns3["fn"](M, Trap, A3)
+                    for _ in range(point + 1): advance(kind, obj3)
+                    act3 = list(A3)
+                    gc_was = gc.isenabled(); gc.disable()
+                    try:
+                        # (the managers themselves are not counted: reading frame.f_locals leaves a snapshot dict cached IN the target
+                        # frame object, which is how CPython <= 3.12 works for any inspector)
+                        fr3 = frame_of(kind, obj3)
+                        rc0 = [sys.getrefcount(fr3), sys.getrefcount(obj3)]
+                        with inject(helper, k):
+                            r3 = inspect(fr3, obj3)
+                        r3 = None
+                        rc1 = [sys.getrefcount(fr3), sys.getrefcount(obj3)]
+                    finally:
+                        if gc_was: gc.enable()
+                    leg.case(key + ("refcounts",), True)
+                    if rc1 != rc0:
+                        leg.violation(key + ("refcounts",), f"after a failed analysis, with its result dropped and no cyclic collection run, the reference "
+                                                            f"counts of the inspected frame / its generator went from {rc0} to {rc1}")
+                    obj3.close()
 # referents mode, no fault: a re-entrant manager entered twice (and three times, and interleaved with another one) in ONE frame is
 # active that many times - equal bound methods are different registrations
 ll.set_trickery_enabled(False)
